@@ -45,6 +45,39 @@ class Infra(Exception):
     """Infrastructure failure: exit 2, never a verdict."""
 
 
+class LibraryPanic(Exception):
+    """The harness process died of a Go panic raised inside uhppote-core (on a goroutine the harness cannot
+    recover on, or in a rig that does not wrap its calls): real-code behaviour, a violation of the property
+    whose inputs were being played (every property demands a result or an error, never a crash)."""
+
+    def __init__(self, frame, tail):
+        Exception.__init__(self, frame)
+        self.frame = frame
+        self.tail = tail
+
+
+def library_panic(stderr):
+    """Top non-runtime frame of the panicking goroutine if it is library code, else None."""
+    m = re.search(r"^(panic: |fatal error: )", stderr, re.M)
+    if not m:
+        return None
+    g = re.search(r"^goroutine \d+ \[running\]:\n", stderr[m.start():], re.M)
+    if not g:
+        return None
+    for line in stderr[m.start() + g.end():].splitlines():
+        if not line.strip():
+            break
+        if line.startswith("\t") or line.startswith(" "):
+            continue
+        fn = line.split("(")[0] if not line.startswith("panic(") else "panic"
+        if fn == "panic" or fn.startswith("runtime.") or fn.startswith("runtime/") or fn.startswith("reflect.") \
+                or fn.startswith("encoding/") and "uhppote-core" not in fn or fn.startswith("fmt.") or fn.startswith("strconv.") \
+                or fn.startswith("time.") or fn.startswith("bytes.") or fn.startswith("strings.") or fn.startswith("net.") or fn.startswith("sync."):
+            continue
+        return fn if "github.com/uhppoted/uhppote-core/" in fn else None
+    return None
+
+
 _scratch = None
 
 
@@ -141,6 +174,9 @@ def run_harness(args, env=None, race=False, timeout=3600, check=True):
     p = subprocess.run([exe] + [str(a) for a in args], env=e, stdout=subprocess.PIPE,
                        stderr=subprocess.PIPE, text=True, timeout=timeout)
     if check and p.returncode != 0:
+        fr = library_panic(p.stderr)
+        if fr:
+            raise LibraryPanic(fr, p.stderr[-6000:])
         raise Infra("harness %s failed (%d):\n%s\n%s" % (args, p.returncode, p.stdout[-4000:], p.stderr[-4000:]))
     return p
 
